@@ -79,13 +79,13 @@ theorem checkGone_progress (w : WP) (pid : Nat) (t : Rat) (ht : 0 ≤ t)
   | code cc =>
     simp only
     refine ⟨fun o h => (by cases h), fun w' h => ?_⟩
-    cases h; left; simp only [markGone]; split <;> simp_all
+    cases h; left; simp only [markGone_eq]; split <;> simp_all
   | none =>
     simp only
     have hnr : (envOf pid).running r.now = false := not_running_of_endedBy (f4 none (f6 ho)).2
     simp only [hnr, Bool.false_eq_true, if_false]
     refine ⟨fun o h => (by cases h), fun w' h => ?_⟩
-    cases h; left; simp only [markGone]; split <;> simp_all
+    cases h; left; simp only [markGone_eq]; split <;> simp_all
   | valueError => simp only; exact ⟨fun o h => (by cases h; rfl), fun w' h => (by cases h)⟩
   | hang => exact absurd ho c2
   | outOfFuel => exact absurd ho c1
@@ -370,9 +370,10 @@ theorem waitProcs_terminates (hs : 1 ≤ c.sliceN) (procs : List Nat) (τ : Rat)
     (h1 : ((dedup procs).length : Rat) + τ * ((dedup procs).length : Rat) + 2 < (fuel : Rat))
     (h2 : τ * 10000 + 1 ≤ (fuel : Rat)) (o : Outcome)
     (h : waitProcs c envOf procs (some τ) hasCb order fuel w = .error o) : o = .valueError := by
-  obtain ⟨hg0, hcb0, hc0⟩ := hf
+  obtain ⟨hg0, hcb0, hs0, hc0⟩ := hf
   have hl0 : LInv envOf hasCb (dedup procs) w (dedup procs) := by
-    refine ⟨⟨by rw [hg0]; simp, by rw [hcb0, hg0]; simp, by rw [hg0]; simp, by rw [hg0]; simp, hc0⟩,
+    refine ⟨⟨by rw [hg0]; simp, by rw [hcb0, hg0]; simp, by rw [hg0]; simp, by rw [hg0]; simp, hc0,
+        by rw [hs0]; simp, by rw [hs0, hcb0]; simp⟩,
       nodup_dedup procs, fun q => by rw [hg0]; simp⟩
   have hneg : negative (some τ) = false := by simp [negative]; linarith
   unfold waitProcs at h
